@@ -6,6 +6,7 @@ import (
 	"fmt"
 	"os"
 	"regexp"
+	"slices"
 	"sort"
 	"strings"
 	"time"
@@ -232,7 +233,53 @@ var (
 	reMetric = regexp.MustCompile(`\b(foo|bar)\b`)
 )
 
+var reReasonLabel = regexp.MustCompile("doesn't have the `([^`]+)` label")
+
+// groupLabelFromLackingSide: the label the reason names is copied by a group_left/group_right(...) of some
+// join in expr whose "one" side cannot carry it (pint's own analysis of that operand), so the copy never happens.
+func groupLabelFromLackingSide(reason, expr string) bool {
+	m := reReasonLabel.FindStringSubmatch(reason)
+	if m == nil {
+		return false
+	}
+	node, err := promParser.ParseExpr(expr)
+	if err != nil {
+		return false
+	}
+	found := false
+	promParser.Inspect(node, func(n promParser.Node, _ []promParser.Node) error {
+		b, ok := n.(*promParser.BinaryExpr)
+		if !ok || b.VectorMatching == nil || !slices.Contains(b.VectorMatching.Include, m[1]) {
+			return nil
+		}
+		one := b.RHS
+		if b.VectorMatching.Card == promParser.CardOneToMany {
+			one = b.LHS
+		}
+		r := one.PositionRange()
+		text := expr[r.Start:r.End]
+		sub, err := promParser.ParseExpr(text)
+		if err != nil {
+			return nil
+		}
+		can := false
+		for _, src := range utils.LabelsSource(text, sub) {
+			if src.CanHaveLabel(m[1]) {
+				can = true
+			}
+		}
+		if !can {
+			found = true
+		}
+		return nil
+	})
+	return found
+}
+
 func class(reason, expr string) string {
+	if groupLabelFromLackingSide(reason, expr) {
+		return "group-modifier-label-assumed-present-although-the-one-side-lacks-it"
+	}
 	r := reNum.ReplaceAllString(reTick.ReplaceAllString(reason, "_"), "N")
 	if len(r) > 80 {
 		r = r[:80]
